@@ -133,6 +133,30 @@ impl WalRecuperator {
             return Ok(());
         }
 
+        // The records that follow name the object by the id it was given the first time. The id
+        // counter of the checkpoint may be behind it (ids taken by transactions that never
+        // committed), so the object is created again under its logged id.
+        let logged_id = create_op
+            .row_id()
+            .expect("Object ID must be set for CREATE logs");
+        let pager = self.dml_executor.ctx().pager().clone();
+        let counter_before = {
+            let mut pager = pager.write();
+            let before = pager.get_last_stored_object();
+            pager.set_last_stored_object(logged_id);
+            before
+        };
+        let result = self.redo_create_as_logged(redo_bytes);
+        {
+            let mut pager = pager.write();
+            let after = pager.get_last_stored_object();
+            pager.set_last_stored_object(after.max(counter_before));
+        }
+        result
+    }
+
+    fn redo_create_as_logged(&mut self, redo_bytes: &[u8]) -> RuntimeResult<()> {
+
         // Try to deserialize as CreateTableInstr first
         if let Ok(mut create_table_instr) = CreateTableInstr::from_bytes(redo_bytes) {
             // Redo must be repeatable: after a crash between the checkpoint's page writes and the
